@@ -41,6 +41,7 @@ GRAV = np.array([0, 0, -9.81])
 def cases(tier, seed):
     n = {"quick": 64, "thorough": 1200}[tier]
     directed = [{"solver": s_, "dt": 2e-2, "forcefree": False, "frictionless": fl, "directed": "resting_with_restitution"} for s_ in SOLVERS for fl in (True, False)]
+    directed += [{"solver": s_, "dt": dt_, "forcefree": False, "frictionless": False, "directed": "mixed_resting"} for s_ in SOLVERS for dt_ in (1e-2, 2e-2)]
     return directed + [{"solver": SOLVERS[i % 4], "dt": DTS[(i // 4) % 3], "forcefree": (i // 12) % 3 == 2, "frictionless": (i // 12) % 3 != 0} for i in range(n)]
 
 
@@ -75,7 +76,11 @@ def _scene(rng, spec):
     mu = 0.0 if spec["frictionless"] else float(rng.uniform(0.05, 1.0))
     spheres = []
     start = ["drop", "rest", "graze", "stack"][int(rng.integers(4))]
-    if spec.get("directed"):
+    if spec.get("directed") == "mixed_resting":
+        # several spheres of different mass rest on / slide along the ground in the same steps; a frictionless contact is
+        # assembled BEFORE frictional ones (and, with three spheres, possibly another one between them)
+        start, ns = "rest_all", int(rng.integers(2, 4))
+    elif spec.get("directed"):
         start, ns, e_N = "rest", 2, float(rng.uniform(0.4, 0.8))
     info.update({"e_N": e_N, "mu": mu, "start": start, "tilt": tilt})
     z = 0.0
@@ -85,6 +90,8 @@ def _scene(rng, spec):
         if start == "stack":
             pos = np.array([0.0, 0.0, z + R]); z += 2 * R
             vel = np.zeros(3)
+        elif start == "rest_all":
+            pos = np.array([i * 1.5, rng.normal() * 0.2, R]); vel = np.array([rng.normal(), rng.normal(), 0.0]) * 1.5
         elif start == "rest" and i == 0:
             pos = np.array([rng.normal(), rng.normal(), R]); vel = np.array([rng.normal(), rng.normal(), 0.0]) * float(rng.random() < 0.7)
         elif start == "graze":
@@ -108,6 +115,8 @@ def _scene(rng, spec):
         for j, (pl, n, r0) in enumerate(planes):
             # some contacts of a frictional scene are frictionless (their friction laws do not exist at all), in any position
             mu_c = mu if (mu == 0.0 or rng.random() < 0.7 or spec.get("directed")) else 0.0
+            if start == "rest_all":
+                mu_c = 0.0 if (i == 0 or (i == 1 and ns == 3 and rng.random() < 0.5)) else mu
             if mu_c != mu:
                 info["mixed_friction"] = True
             S.add(Sphere2Plane(pl, b, mu_c, r=R, e_N=e_N, e_F=0.0 if mu_c > 0 else None, name=f"c_s{i}_p{j}"))
